@@ -248,10 +248,16 @@ def run_shard(shard, tier, seed):
                     variants.append(("reversed", base[::-1].copy()[::-1]))
                     if d.kind != "f":
                         small = (np.arange(cnt) % 100).reshape(shape)
-                        variants.append(("converted:f8", small.astype("<f8")))
-                        variants.append(("converted:i8", small.astype("<i8")))
+                        conv = [("converted:f8", small.astype("<f8")), ("converted:i8", small.astype("<i8"))]
                     else:
-                        variants.append(("converted:i4", (np.arange(cnt) - 3).reshape(shape).astype("<i4")))
+                        conv = [("converted:i4", (np.arange(cnt) - 3).reshape(shape).astype("<i4"))]
+                    for cname, ca in conv:
+                        if ca.dtype == d:
+                            continue
+                        variants.append((cname, ca))
+                        if len(shape) == 2:  # conversion AND a source that is not C-contiguous
+                            variants.append((cname + "+F", np.asfortranarray(ca)))
+                            variants.append((cname + "+T-view", np.ascontiguousarray(ca.T).T))
                 for vname, src in variants:
                     b, m = mk(kind, cap, salt)
                     feat = dict(offset=off, nbytes=n, dtype=dt, layout=vname, ndim=len(shape))
